@@ -6,6 +6,7 @@ Oracle: the union over all jobs of the tasks that `run-parallel` would start
 (recorded by replacing multiprocessing.Process inside panqec.cli's namespace -
 no process is started; the property is about the arguments).
 """
+import json
 import os
 import shutil
 import types
@@ -18,7 +19,11 @@ PROPERTY = 'C14'
 LEVEL = 'exploration'
 RULE = ('exhaustive box over (n_inputs, nodes, cores, trials) with '
         'nodes*cores >= n_inputs and trials >= max tasks per input, every '
-        'job index 1..nodes executed, plus Hypothesis-drawn large values; '
+        'job index 1..nodes executed, plus Hypothesis-drawn large values, '
+        'plus Hypothesis-drawn runs in which the stand-in for the child '
+        'writes its result file, jobs run in a drawn order with/without '
+        '--delete-existing over drawn leftover files and the result '
+        'directory is read back; '
         'a case is non-trivial when trials is not divisible by the tasks of '
         'some input and n_tasks is not divisible by n_inputs; distinct = '
         'distinct 4-tuple')
@@ -79,12 +84,31 @@ def eval_case(case):
     d = _data_dir(n_inputs)
     tasks = []
 
+    # 'files' cases: the stand-in for the child process really writes its
+    # result file when started, jobs run in a generated order (array tasks
+    # are not ordered) with or without --delete-existing, possibly over
+    # leftovers of an earlier run; the result directory is read back at the end
+    files = bool(case.get('files'))
+    order = case.get('order') or list(range(1, N + 1))
+    assert sorted(order) == list(range(1, N + 1))
+    res_dir = os.path.join(d, 'results')
+    if files:
+        shutil.rmtree(res_dir, ignore_errors=True)
+        os.makedirs(res_dir)
+        for name in case.get('leftovers', []):
+            with open(os.path.join(res_dir, name), 'w') as f:
+                f.write(json.dumps({'stale': True}))
+
     class Recorder:
         def __init__(self, target=None, args=(), kwargs=None):
             tasks.append((args, dict(kwargs or {})))
+            self.args = args
 
         def start(self):
-            pass
+            if files:
+                inp, res, n_runs = self.args
+                with open(res, 'w') as f:
+                    f.write(json.dumps({'input': inp, 'n_runs': n_runs}))
 
         def join(self):
             pass
@@ -97,10 +121,11 @@ def eval_case(case):
     cli.multiprocessing = fake
     fails = []
     try:
-        for job in range(1, N + 1):
+        for job in order:
             cli.run_parallel.callback(
                 data_dir=d, trials=trials, n_nodes=N, job_idx=job,
-                n_cores=None if omit else C, delete_existing=False)
+                n_cores=None if omit else C,
+                delete_existing=bool(case.get('delete_existing', False)))
     finally:
         cli.multiprocessing = real
 
@@ -139,6 +164,31 @@ def eval_case(case):
     extra = set(per_input) - set(map(os.path.abspath, expected_inputs))
     if extra:
         fails.append({'relation': 'unknown_input', 'detail': str(sorted(extra))})
+    if files:
+        # what is on disk once every job has run
+        on_disk = {}
+        for args, kw in tasks:
+            inp, res, n_runs = args
+            try:
+                with open(res) as f:
+                    rec = json.load(f)
+            except (OSError, ValueError):
+                rec = None
+            if rec != {'input': inp, 'n_runs': n_runs}:
+                fails.append({'relation': 'result_file_survives',
+                              'detail': f'after jobs ran in order {order} (delete_existing='
+                              f'{bool(case.get("delete_existing"))}) the result file '
+                              f'{os.path.basename(res)} of a launched task '
+                              f'{"is missing" if rec is None else "holds " + str(rec)}'})
+                continue
+            on_disk[inp] = on_disk.get(inp, 0) + rec['n_runs']
+        for inp in expected_inputs:
+            got = on_disk.get(os.path.abspath(inp), 0)
+            if got != trials and not any(f['relation'] == 'result_file_survives' for f in fails):
+                fails.append({'relation': 'trials_on_disk',
+                              'detail': f'{os.path.basename(inp)}: result files hold {got} '
+                              f'trials, requested {trials}'})
+        shutil.rmtree(res_dir, ignore_errors=True)
 
     base = n_tasks // n_inputs
     last = max_tasks_per_input(n_inputs, n_tasks)
@@ -150,6 +200,9 @@ def eval_case(case):
                   else 'even_trials')
     if trials % last >= max(1, trials // last):
         labels.append('remainder>=quotient')
+    if files:
+        labels.append('files:delete-existing' if case.get('delete_existing') else 'files:keep')
+        labels.append('files:ascending-jobs' if order == sorted(order) else 'files:other-job-order')
     return {'fails': fails[:6], 'nontrivial': nontrivial, 'labels': labels,
             'evals': N}
 
@@ -183,6 +236,25 @@ def large_cases(draw):
             'omit_cores': draw(st.booleans())}
 
 
+@st.composite
+def file_cases(draw):
+    n_inputs = draw(st.integers(1, 5))
+    C = draw(st.integers(1, 4))
+    n_min = -(-n_inputs // C)
+    N = draw(st.integers(max(n_min, 1), max(n_min, 5)))
+    lo = max_tasks_per_input(n_inputs, N * C)
+    trials = draw(st.integers(lo, lo + 40))
+    order = draw(st.permutations(list(range(1, N + 1))))
+    digits = len(str(N * C))
+    leftovers = draw(st.lists(st.sampled_from(
+        [f'results_{str(i).zfill(dg)}.json{ext}' for i in range(1, N * C + 3)
+         for dg in (digits, digits + 1) for ext in ('', '.gz')]), max_size=4, unique=True))
+    return {'n_inputs': n_inputs, 'n_nodes': N, 'n_cores': C, 'trials': trials,
+            'files': True, 'order': list(order),
+            'delete_existing': draw(st.booleans()), 'leftovers': leftovers,
+            'omit_cores': draw(st.booleans())}
+
+
 def run(ctx):
     if ctx.tier == 'quick':
         cases = list(box(6, 5, 8, 120))
@@ -194,4 +266,5 @@ def run(ctx):
     ctx.exhaustive = True
     ctx.run_cases(cases, chunk=200)
     ctx.run_hypothesis('large_cases', n_hyp)
+    ctx.run_hypothesis('file_cases', 600 if ctx.tier == 'quick' else 20000)
     shutil.rmtree(runner.scratch_dir('c14'), ignore_errors=True)
